@@ -1,189 +1,16 @@
-"""C13 — in-memory word streams behave as array + cursor: cursor/store discipline on every path of every method."""
-import mir
-import codeclass as cc
-from rules_c10 import is_arg, peel_ref
+"""C13 — in-memory word streams behave as an array + cursor.  Decided by interpreting every method on small storages and every
+cursor cell against the array-plus-cursor model (sa/rules_c13m.py); the earlier rules matched the syntactic shape of the method
+bodies and were dropped because behaviour-preserving rewrites (match instead of unwrap_or, inverted guards, helper functions)
+made them fire."""
+import rules_c13m
 
-SELF = ("deref", ("arg", 1, "self"))
-CUR = ("field", SELF, "word_index")
-TYPES = {
-    "MemWordReader<W, B>": ("impls::mem_word_reader::MemWordReader<W, B>", "inf"),
-    "MemWordReader<W, B, false>": ("impls::mem_word_reader::MemWordReader<W, B, false>", "strict"),
-    "MemWordWriterSlice<W, B>": ("impls::mem_word_writer::MemWordWriterSlice<W, B>", "slice"),
-    "MemWordWriterVec<W, B>": ("impls::mem_word_writer::MemWordWriterVec<W, B>", "vec"),
-}
-
-
-def data_access(ex):
-    """does expanded term ex reach through self.data (as_ref/as_mut/deref chain)"""
-    return mir.mentions(ex, lambda t: t == ("field", SELF, "data"))
-
-
-def cursor_stores(p):
-    return [(e[1], e[2]) for e in p.events if e[0] == "store" and e[1] == CUR]
-
-
-def is_ok(r):
-    return isinstance(r, tuple) and r[0] == "agg" and r[3] == "Ok"
-
-
-def is_err(r):
-    return isinstance(r, tuple) and ((r[0] == "agg" and r[3] == "Err") or r[0] == "from_residual")
-
-
-def access_calls(p, names):
-    return [e for e in p.calls() if e[1].split("::")[-1] in names and data_access(mir.expand(e[8][0], p))]
+TYPES = rules_c13m.TYPES
 
 
 def run(chk, F, tier):
-    chk.rule("K.read_word", floor=4, doc="read_word: element at the entry cursor, cursor+1 on Ok, untouched on Err; INF yields ZERO beyond the end and still advances")
-    chk.rule("K.write_word", floor=2, doc="write_word: stores the argument at the entry cursor (vector: zero-filled growth to cursor+1 first), cursor+1 on Ok, nothing on Err")
-    chk.rule("K.word_pos", floor=4, doc="word_pos returns the cursor")
-    chk.rule("K.set_word_pos", floor=4, doc="set_word_pos: Ok stores exactly the argument; rejected (x > len) leaves the cursor; INF never fails")
-    chk.rule("K.len", floor=2, doc="len() is the length of the storage")
-    for tname, (sty, kind) in sorted(TYPES.items()):
-        def method(tr, nm):
-            l = [b for b in F.bodies if b["kind"] == "AssocFn" and b.get("impl_self") == sty and (b.get("impl_trait_def") or "") == tr
-                 and b["path"].endswith("::" + nm)]
-            return l[0] if len(l) == 1 else None
-        # ---- read_word
-        b = method("traits::words::WordRead", "read_word")
-        if b is None:
-            chk.bad("K.read_word", tname, "read_word of %s not found" % tname)
-        else:
-            probs = []
-            nok = nerr = 0
-            for p in mir.walk(b):
-                if p.end[0] != "return":
-                    probs.append("path ends with %s" % (p.end,))
-                    continue
-                st = cursor_stores(p)
-                gets = access_calls(p, ("get",))
-                if len(gets) != 1 or gets[0][2][1] != CUR:
-                    probs.append("element access is %s (expected one get(entry cursor))" % [mir.fmt(g[2][1]) for g in gets])
-                    continue
-                if is_ok(p.ret):
-                    nok += 1
-                    if st != [(CUR, ("binop", "Add", CUR, ("const", 1, "usize")))]:
-                        probs.append("Ok path: cursor stores %s (expected one cursor+1)" % [mir.fmt(v) for k, v in st])
-                    ex = mir.expand(p.ret[4][0], p)
-                    from_get = mir.mentions(ex, lambda t: t[0] == "app" and t[1].endswith("::get"))
-                    is_zero = lambda z: isinstance(z, tuple) and z[0] == "uneval" and z[1].endswith("::ZERO")
-                    none_arm = any(t == ("discr", gets[0][3]) and ((op == "==" and v == 0)) for (t, op, v) in p.constraints)
-                    if kind == "inf":
-                        if ex[0] == "app" and ex[1].endswith("unwrap_or"):
-                            # unwrap_or(copied(get(..)), ZERO)
-                            if not (from_get and is_zero(ex[2][1])):
-                                probs.append("beyond-the-end value is %s, not W::ZERO" % mir.fmt(ex[2][1])[:60])
-                        elif none_arm:
-                            if not is_zero(cc.strip_casts(ex)):
-                                probs.append("beyond-the-end value is %s, not W::ZERO" % mir.fmt(p.ret[4][0])[:60])
-                        elif not from_get:
-                            probs.append("Ok value does not come from the element access")
-                    elif not from_get:
-                        probs.append("Ok value does not come from the element access")
-                elif is_err(p.ret):
-                    nerr += 1
-                    if st:
-                        probs.append("Err path moves the cursor")
-                    if kind == "inf":
-                        probs.append("zero-extended reader has an error path")
-                else:
-                    probs.append("returns %s" % mir.fmt(p.ret)[:60])
-            if nok < 1 or (kind != "inf" and nerr < 1):
-                probs.append("expected Ok and Err paths, found %d/%d" % (nok, nerr))
-            chk.expect("K.read_word", tname, not probs, "%s::read_word: %s" % (tname, "; ".join(sorted(set(probs)))), sample={"type": tname, "ok_paths": nok, "err_paths": nerr})
-        # ---- write_word
-        b = method("traits::words::WordWrite", "write_word")
-        if kind in ("slice", "vec"):
-            probs = []
-            if b is None:
-                probs.append("not found")
-            else:
-                nok = 0
-                for p in mir.walk(b):
-                    if p.end[0] != "return":
-                        continue
-                    st = cursor_stores(p)
-                    stores = [(e[1], e[2]) for e in p.events if e[0] == "store" and e[1] != CUR]
-                    if is_ok(p.ret):
-                        nok += 1
-                        if st != [(CUR, ("binop", "Add", CUR, ("const", 1, "usize")))]:
-                            probs.append("Ok path: cursor stores %s" % [mir.fmt(v) for k, v in st])
-                        acc = access_calls(p, ("get_mut", "index_mut"))
-                        if len(acc) != 1 or acc[0][2][1] != CUR:
-                            probs.append("element access %s is not at the entry cursor" % [mir.fmt(a[2][1]) for a in acc])
-                            continue
-                        elem = [(k, v) for k, v in stores if mir.mentions(k, lambda t: t == acc[0][3])]
-                        if len(elem) != 1 or not is_arg(elem[0][1], 2):
-                            probs.append("stored element is %s, not the word argument" % [mir.fmt(v) for k, v in elem])
-                        if kind == "vec":
-                            grew = [c for c in p.constraints if c[0][0] == "binop" and c[0][1] in ("Ge", "Gt", "Lt", "Le")]
-                            rs = [e for e in p.calls() if e[1].endswith("::resize")]
-                            taken = any((op == "notin" and v == (0,)) or (op == "==" and v == 1) for (t, op, v) in grew)
-                            if grew and grew[0][0] != ("binop", "Ge", CUR, grew[0][0][3]):
-                                probs.append("growth test is %s" % mir.fmt(grew[0][0]))
-                            if taken:
-                                okr = len(rs) == 1 and rs[0][2][1] == ("binop", "Add", CUR, ("const", 1, "usize")) and \
-                                    rs[0][2][2][0] == "uneval" and rs[0][2][2][1].endswith("::ZERO") and \
-                                    p.events.index(rs[0]) < p.events.index(acc[0])
-                                if not okr:
-                                    probs.append("growth is not resize(cursor+1, W::ZERO) before the store: %s" % [[mir.fmt(a) for a in r[2][1:]] for r in rs])
-                            elif rs:
-                                probs.append("resizes although the cursor is inside the vector")
-                    elif is_err(p.ret):
-                        if st or stores:
-                            probs.append("Err path stores")
-                        if kind == "vec":
-                            probs.append("vector writer has an error path")
-                if nok < 1:
-                    probs.append("no Ok path")
-            chk.expect("K.write_word", tname, not probs, "%s::write_word: %s" % (tname, "; ".join(sorted(set(probs)))), sample={"type": tname})
-        # ---- word_pos
-        b = method("traits::words::WordSeek", "word_pos")
-        ps = [p for p in mir.walk(b) if p.end[0] == "return"] if b else []
-        okp = len(ps) == 1 and is_ok(ps[0].ret) and cc.strip_casts(ps[0].ret[4][0]) == CUR and not ps[0].events
-        chk.expect("K.word_pos", tname, okp, "%s::word_pos does not return the cursor" % tname)
-        # ---- set_word_pos
-        b = method("traits::words::WordSeek", "set_word_pos")
-        probs = []
-        nok = nrej = 0
-        for p in (mir.walk(b) if b else []):
-            if p.end[0] != "return":
-                continue
-            st = cursor_stores(p)
-            if is_ok(p.ret):
-                nok += 1
-                if len(st) != 1:
-                    probs.append("Ok path stores the cursor %d times" % len(st))
-                    continue
-                v = cc.strip_casts(mir.expand(st[0][1], p))
-                if kind == "inf":
-                    okv = v[0] == "app" and v[1].endswith("::min") and is_arg(v[2][0], 2) and cc.const_int(v[2][1]) == (1 << 64) - 1
-                else:
-                    okv = is_arg(v, 2)
-                if not okv:
-                    probs.append("stores %s, not the requested position" % mir.fmt(st[0][1])[:60])
-            elif is_err(p.ret):
-                nrej += 1
-                if st:
-                    probs.append("rejected set_word_pos moves the cursor")
-            # guard
-            for (t, op, val) in p.constraints:
-                if t[0] == "binop" and t[1] in ("Gt", "Ge", "Lt", "Le", "Eq", "Ne"):
-                    ex = mir.expand(t, p)
-                    a, bb = cc.strip_casts(ex[2]), cc.strip_casts(ex[3])
-                    oklen = lambda z: z[0] == "app" and z[1].endswith("::len") and data_access(z)
-                    if not ((t[1] == "Gt" and is_arg(a, 2) and oklen(bb)) or (t[1] == "Lt" and oklen(a) and is_arg(bb, 2))):
-                        probs.append("rejection guard is %s (expected position > len(data))" % mir.fmt(t)[:70])
-        if kind == "inf" and nrej:
-            probs.append("zero-extended reader rejects a position")
-        if kind != "inf" and (nok < 1 or nrej < 1):
-            probs.append("expected accepting and rejecting paths (%d/%d)" % (nok, nrej))
-        chk.expect("K.set_word_pos", tname, not probs, "%s::set_word_pos: %s" % (tname, "; ".join(sorted(set(probs)))), sample={"type": tname})
-    for ty in ("impls::mem_word_writer::MemWordWriterSlice::<W, B>::len", "impls::mem_word_writer::MemWordWriterVec::<W, B>::len"):
-        ps = [p for p in mir.walk(F.body(ty)) if p.end[0] == "return"]
-        ex = mir.expand(ps[0].ret, ps[0]) if len(ps) == 1 else None
-        chk.expect("K.len", ty, ex is not None and ex[0] == "app" and ex[1].endswith("::len") and data_access(ex), "%s is not data.len()" % ty)
+    rules_c13m.run(chk, F, tier)
+    chk.trust("contract of AsRef/AsMut/Deref on the storage parameter: identity views (std docs); slices and vectors as documented by std")
+    chk.trust("the value-partition interpreter sa/ivl.py (MIR semantics of the constructs it accepts; anything else is refused)")
 
 
 def run_all(chk, fsets, tier):
